@@ -109,12 +109,6 @@ typename dis_interval<Number>::list_intervals_t dis_interval<Number>::normalize(
   for (unsigned int i = 0; i < l.size(); ++i) {
     ikos::interval<Number> intv = l[i];
 
-    if (prev == intv) {
-      CRAB_LOG("disint", crab::outs() << "-- Normalize: duplicate"
-                                      << "\n");
-      continue;
-    }
-
     if (intv.is_bottom()) {
       CRAB_LOG("disint", crab::outs() << "-- Normalize: bottom interval"
                                       << "\n");
@@ -127,6 +121,14 @@ typename dis_interval<Number>::list_intervals_t dis_interval<Number>::normalize(
                                       << "\n");
       is_bottom = false;
       return typename dis_interval<Number>::list_intervals_t();
+    }
+
+    // prev is top until the first interval is added so this test
+    // must come after the one for top intervals.
+    if (prev == intv) {
+      CRAB_LOG("disint", crab::outs() << "-- Normalize: duplicate"
+                                      << "\n");
+      continue;
     }
 
     if (!prev.is_top()) {
